@@ -1,4 +1,5 @@
 import NeumannModel.KV.SlabLemmas
+import NeumannModel.KV.SlabStoreLemmas
 import NeumannModel.KV.EmbLemmas
 /-
   C11 — the embedding slab as it is (index id ↦ slot, free list, bump pointer) and
@@ -77,6 +78,19 @@ theorem store_no_two_live_keys_share_a_slot (ops : List SOp) (k k' : Key) (sl : 
       have : i = i' := inv.inj i i' sl h h'
       subst this
       exact idxGet_inj hi hi'
+
+/-- FULL STRENGTH (store operations), THE VALUE ORACLE: every sequential history of put / get /
+    delete / exists / clear - any length, any number of clears, keys of every class, values with /
+    without / with a wrong-dimension vector - answers exactly as the map key ↦ last value put
+    (`sSpecRunFrom`: clear empties the map): a get returns the last value put to THAT key, never
+    another key's vector, never a value from before a delete or a clear. -/
+theorem store_sequential_history_is_the_map_of_last_values_put (ops : List SOp) :
+    (sRun false ops).2 = sSpecRunFrom [] ops :=
+  sRunFrom_is_the_map ops {} [] Coh.init
+
+/-- `clear` without `free_slots.clear()` (not the code) is not that map -/
+theorem clearKeepsFreeList_history_is_not_the_map_witness :
+    (sRun true clearKeepsFreeListOps).2 ≠ sSpecRunFrom [] clearKeepsFreeListOps := by decide
 
 /-- non-vacuity: two keys live after a delete and a clear, in different slots -/
 example : sSlot (sRun false (clearKeepsFreeListOps)).1 kE2 = some 0 ∧
